@@ -212,6 +212,13 @@ func LogResult(i int, r Result) {
 		r.Case = fmt.Sprintf("%v", r.Case)
 		b, _ = json.Marshal(r)
 	}
+	if len(b) > 2<<20 {
+		// a record of megabytes (a case over very large data): keep the verdict, key and message; the case is
+		// regenerated from its index when it is replayed
+		r.Case = fmt.Sprintf("(case of %d bytes not recorded; it is regenerated from its index)", len(b))
+		r.Msg = trim(r.Msg, 4000)
+		b, _ = json.Marshal(r)
+	}
 	LogLine(fmt.Sprintf("R %d %s", i, b))
 }
 
